@@ -83,11 +83,17 @@ def strategy(tier):
     read = st.fixed_dictionaries({"op": st.just("read"), "what": st.sampled_from(["err", "cov_mat", "cor_mat", "cov_mat_inverse", "total_error", "all"]),
                                   "axis": axis})
     n_ops = 25 if tier == "quick" else 60
+    # macro: the values change *while a source is disabled* and the source comes back afterwards (read, disable, change, enable, read).  As single
+    # ops this five-step pattern is drawn in well under 1 % of the histories (seeded change C02-b lives exactly there); the macro is expanded
+    # into plain ops, so cases, replays and shrinking are unchanged.
+    masked = st.tuples(st.integers(0, 10), change, read, read).map(
+        lambda t: [t[2], {"op": "disable", "src": t[0]}, t[1], {"op": "enable", "src": t[0]}, t[3]])
+    one = st.one_of(add_simple, add_simple, add_matrix, toggle, change, change, read, read, read).map(lambda o: [o])
     return st.fixed_dictionaries({
         "kind": st.sampled_from(["indexed", "xy", "xy", "hist", "unbinned", "indexed_model", "xy_model", "hist_model"]),
         "n": st.integers(1, N_MAX),
         "values": _vec(_val), "values2": _vec(_val),
-        "ops": st.lists(st.one_of(add_simple, add_simple, add_matrix, toggle, change, change, read, read, read), min_size=1, max_size=n_ops),
+        "ops": st.lists(st.one_of(one, one, one, one, one, one, one, masked), min_size=1, max_size=n_ops).map(lambda ll: [o for l in ll for o in l]),
     })
 
 
@@ -311,6 +317,9 @@ def run(case):
                 s["enabled"] = k == "enable"
                 if read_seen:
                     last_toggle_then_read = True
+                if k == "enable" and s.get("changed_while_disabled") and s.get("relative"):
+                    h.labels.add("relative_source_reenabled_after_value_change")
+                s["changed_while_disabled"] = False
         elif k == "set_values":
             how = op["how"]
             v = np.array(op["values"][:n], float)
@@ -376,6 +385,10 @@ def run(case):
                         h.vals[1] = h._hist_model_vals()
                     h.labels.add("model_parameters_changed")
                     done = True
+            if done:
+                for s_ in h.sources:
+                    if not s_["enabled"]:
+                        s_["changed_while_disabled"] = True
             if done and read_seen and h.has_relative():
                 change_after_read_with_rel = True
                 h.labels.add("value_change_after_read_with_relative_source")
